@@ -8,6 +8,8 @@ package props
 // enumerated: this is the weakest check of the set and its evidence says so.
 
 import (
+	"bytes"
+	"encoding/pem"
 	"fmt"
 	"os"
 	"regexp"
@@ -125,6 +127,10 @@ type c15Collect struct {
 	inflight int64
 	finished int64 // requests answered so far (progress signal of the watchdog)
 	byOp     map[string]int
+	// sameHost: all sessions reach the provider under one host name (users of one tenant) instead of one host each
+	sameHost bool
+	// sameSP: all clients are users' browsers of one service provider and one user account (session 0's)
+	sameSP bool
 }
 
 func (cc *c15Collect) add(v *ev.Violation) {
@@ -200,16 +206,26 @@ func c15Client(w *world.World, spec world.Spec, i int, ops []string, yield int, 
 }
 
 func c15ClientOpt(w *world.World, spec world.Spec, i int, ops []string, yield int, cc *c15Collect, mk func() obs.Opt) {
-	tk := c15Tok(i)
+	sess := i
+	if cc.sameSP {
+		sess = 0
+	}
+	tk := c15Tok(sess)
 	host := "tenant" + tk + ".idp.example"
-	sp := spec.SPs[i]
-	user := spec.Users[i]
+	if cc.sameHost {
+		host = "one-tenant.idp.example"
+	}
+	sp := spec.SPs[sess]
+	user := spec.Users[sess]
 	entity := spec.IdP.EntityID(host)
-	do := c15DoOpt(w, cc, i, host, yield, mk)
+	do := c15DoOpt(w, cc, sess, host, yield, mk)
 	wr := func(n *xt.Node) []byte { return xt.Write(n, plainStyle.W) }
 	for k, op := range ops {
 		reqID := fmt.Sprintf("_req%s-%d", tk, k)
 		relay := fmt.Sprintf("rs-%s-%d", tk, k)
+		if cc.sameSP {
+			reqID, relay = fmt.Sprintf("_req%s-c%d-%d", tk, i, k), fmt.Sprintf("rs-%s-c%d-%d", tk, i, k)
+		}
 		switch op {
 		case "sso", "flow-post", "flow-redirect":
 			a := spsim.NewAuthnReq(reqID, sp.EntityID)
@@ -351,8 +367,8 @@ func c15ClientOpt(w *world.World, spec world.Spec, i int, ops []string, yield in
 			})
 		case "certificate":
 			rep, _, _ := do(op, obs.HTTPReq{Method: "GET", Path: spec.IdP.Route("certificate")})
-			if obs.Decode(rep).Kind != obs.KindPEM {
-				cc.add(ev.V("C15/certificate-reply", "client %d: status %d", i, rep.Status))
+			if blk, _ := pem.Decode(rep.Body); obs.Decode(rep).Kind != obs.KindPEM || blk == nil || !bytes.Equal(blk.Bytes, world.Key("idp-response").CertDER) {
+				cc.add(ev.V("C15/certificate-reply", "client %d: status %d, body is not the PEM of the response-signing certificate: %s", i, rep.Status, short(string(rep.Body), 80)))
 			}
 		}
 	}
